@@ -45,6 +45,11 @@ CHECKS = {
         "Exploration: for every sentence (all token strings up to 4-5 tokens, rendered with generated layout before, between and after tokens; single-character, multi-character and overlapping lexicons; ws-based and comment LAYOUT grammars) every node of the LR build_tree result and of up to 40-200 forest trees + get_first_tree is checked: integer in-bounds positions, terminal value = input slice, ordered non-overlapping siblings, children inside parents, layout_content+value concatenation reproduces the input, and the positions seen by actions (on the fly and via call_actions) equal the tree's.",
         "Trusted: pv/ref_chart.py for sentence selection. Known finding D17 (GLR packed node keeps the span of its first alternative) relaxes only the three span-relation predicates on GLR trees and only when the disagreeing region consists of layout characters. LR and GLR placements of empty nodes are not compared with each other.",
         "DESIGN.md section 6/C08"),
+    "C12": (
+        "model-based PBT over generated histories on one grammar directory (builds with varying options, edits, touches with a logical clock, pglr compile, cache deletion, truncation to generated byte prefixes, injected crashes during the cache write) compared with builds from pristine copies without cache; fault enumeration over byte prefixes of reference caches; save/load round-trip PBT",
+        "Exploration: generated histories of 3-12 operations over a root grammar importing a second file (3 x 3 variants incl. conflicts and string-vs-regex lexical ambiguity); after every build the serialised table and the outcomes of 15 probe inputs must equal those of the same class/options built from a pristine copy of the current files with no cache - whether the cache is absent, fresh, older than any grammar file, truncated, or left by a crash after k bytes of the write (open() shadowed in parglare.tables.persist); every 13th (thorough: every) byte prefix of two reference caches is enumerated as on-disk state; round trip: load(save(t)) keeps serialised actions/gotos, finish flags, conflicts and dynamic marks and a second save is byte-identical.",
+        "Trusted: crashes modelled as 'bytes written so far stay on disk'; mtimes set by the harness from a logical clock (never equal). Known finding D8 (options are not part of the cache key) is tolerated only for builds that load an intact, fresh cache written under different table-affecting options; every other history is strict.",
+        "DESIGN.md section 6/C12"),
     "C13": (
         "differential PBT: sugared grammar vs (a) parglare on an own plain-BNF expansion following the documented equivalences and (b) reference derivations of the expansion evaluated by the documented meaning; metamorphic greedy-vs-non-greedy family with recorded behaviour on an exhaustive corpus",
         "Exploration: generated rules combining terminals/rules with ? * + , separators (terminal or rule), nested groups and repeated groups, plus the documentation's examples; on every token string up to 4-5 tokens LR must construct iff the expansion does and return the same results/rejection positions, GLR must give the same result sets, tree counts and helper-name-abstracted trees as the expansion, and the sugared language/results must equal the reference derivations of the expansion evaluated as lists / [] / None with separators dropped and groups as anonymous rules. Greedy family (sequences of 2-3 repetitions with ! marks): no non-sentence of the non-greedy form is accepted, every returned tree is a derivation of it, all-but-last-greedy sequences must not return several trees.",
